@@ -2,9 +2,13 @@
 from .xsbase import *
 
 SETUP = ['|12 34 56| var bs', '[ 1 2 3 ] var vec { 1 "a" } var mp', ': inc 1 + ; 5 var n', '|ff 0f| open-bitstr 4 bits var part',
-         'late later : usesit later ;', '"text" var s 0 var cnt', '|a5 5a c3| var bs bs 4 bits drop', '[ |ff| |00| ] var bvec', '1 2 3']
+         'late later : usesit later ;', '"text" var s 0 var cnt',
+         # uniquely owned slices that do not start at bit 0 (read out of a computed buffer whose input is then closed)
+         '[ 1 2 3 ] >bitstr open-bitstr 8 bits drop 8 bits close-bitstr var sl', '[ 255 15 ] >bitstr open-bitstr 4 bits drop 8 bits close-bitstr var sl', '|a5 5a c3| var bs bs 4 bits drop', '[ |ff| |00| ] var bvec', '1 2 3']
 MUTATE = ['bs |ff| bitstr-append ! bs', 'bs bitstr-not ! bs', 'bs |0| swap bitstr-append', '7 vec push ! vec', 'mp 2 "b" insert ! mp', 'mp "a" remove ! mp',
           ': inc 2 + ;', 'n inc ! n', ': later 42 ; usesit', 'part |x.x| bitstr-append ! part', 'part bitstr-not', 'u8 drop', '8 seek', 'close-bitstr',
+          'sl |cc| swap bitstr-append open-bitstr offset remain close-bitstr', 'sl bitstr-not open-bitstr offset close-bitstr', 'sl |1| bitstr-append ! sl sl',
+          'sl open-bitstr offset 4 bits close-bitstr',
           's " more" [ ] swap push swap push reverse concat ! s', 'cnt 1 + ! cnt', 'drop', '99', '1 var fresh', 'vec reverse ! vec', 'bs 8 bits',
           '3 0 do cnt I + ! cnt loop', 'bvec 0 nth |1| swap bitstr-append', 'depth', '"x" print', 'bs length', '1 0 /', 'nosuchword']
 
@@ -55,6 +59,23 @@ class C03(XsProp):
             srcs = [rng.choice(MUTATE) for _ in range(rng.randint(1, 4))]
             ev = ' | '.join('eval %s | stack | out' % hexsrc(x) for x in srcs)
             cs.append('xs limits 4000 - - | eval %s | clone | clone | use 1 | %s | dump | use 2 | %s | dump' % (hexsrc(pre), ev, ev))
+        # replay: what the original does after the clone, the snapshot does too when it runs the same sources afterwards (the
+        # original's activity - consuming shared values, dropping references - must not show in the snapshot)
+        for i in range(n // 2):
+            pre = [rng.choice(SETUP) for _ in range(rng.randint(1, 2))]
+            srcs = [rng.choice(MUTATE) for _ in range(rng.randint(1, 4))]
+            ev = ' | '.join('eval %s | stack | out' % hexsrc(x) for x in srcs)
+            cs.append('xs limits 4002 - - | %s | clone | %s | use 1 | %s' % (' | '.join('eval %s' % hexsrc(x) for x in pre), ev, ev))
+        # the same with a value that only the data stack holds (the original consumes it, the snapshot then is its only owner)
+        stack_slices = ['[ 1 2 3 ] >bitstr open-bitstr 8 bits drop 8 bits close-bitstr', '[ 255 15 7 ] >bitstr open-bitstr 4 bits drop 12 bits close-bitstr',
+                        '|a5 5a c3| open-bitstr 8 bits close-bitstr', '[ 9 8 7 6 ] >bitstr open-bitstr 16 bits drop 9 bits close-bitstr']
+        consumers = ['|cc| swap bitstr-append open-bitstr offset remain close-bitstr', 'bitstr-not open-bitstr offset close-bitstr',
+                     '|1| bitstr-append dup open-bitstr offset close-bitstr', 'dup |0| swap bitstr-append swap bitstr-not', 'open-bitstr offset remain',
+                     '|x.| swap bitstr-append length', 'dup bitstr-not swap |ff| bitstr-append']
+        for pre in stack_slices:
+            for c1 in consumers:
+                ev = 'eval %s | stack | out' % hexsrc(c1)
+                cs.append('xs limits 4002 - - | eval %s | clone | %s | use 1 | %s' % (hexsrc(pre), ev, ev))
         # a snapshot taken while recording: the copy has the same undo history and rewinds exactly like the original
         progs = ['0 var x : sq dup * ; 3 0 do I sq x + ! x loop x', '[ 10 20 30 ] foreach I loop 7', '1 2 over rot swap drop + 5 case 5 of 1 endof 2 endcase',
                  ': f local a a 1 + local a a ; 4 f 0 begin 1 + dup 3 > until', '|ff 0f| open-bitstr 4 bits drop u4 close-bitstr "s" length']
@@ -186,6 +207,16 @@ class C03(XsProp):
             st = c.split(' | ')
             ou = o.split(' | ')
             if len(st) != len(ou):
+                continue
+            if c.startswith('xs limits 4002 '):
+                n += 1
+                ic = st.index('clone')
+                i1 = st.index('use 1')
+                a, b = ou[ic + 1:i1], ou[i1 + 1:]
+                if a != b:
+                    k = next(i for i, (x, y) in enumerate(zip(a, b)) if x != y)
+                    fails.append(('case: %s\nsources: %s\noriginal: %s\nsnapshot: %s' % (c, ' ;; '.join(src_of(c)), a[k][:600], b[k][:600]),
+                                  'the snapshot, running the same sources after the original did, behaves differently'))
                 continue
             if c.startswith('xs limits 4001 '):
                 # snapshot under recording
